@@ -30,3 +30,4 @@ func Ite64(c bool, a, b uint64) uint64
 func HexString(n int, limbs ...uint64) string
 func Show(tag string, x uint64)
 func ShowUFDiff(tag string, x uint64)
+func TranscriptLeak(tag string, r0, r1 uint64, transcript []byte)
